@@ -183,7 +183,8 @@ def run_tlc(module, cfg, cwd, workers=None, timeout=1800, extra=(), env=None, si
     meta = scratch("ev_tlc_")
     libs = os.pathsep.join([os.path.join(SPECS, d) for d in sorted(os.listdir(SPECS))
                             if os.path.isdir(os.path.join(SPECS, d))])
-    cmd = ["java", "-XX:+UseParallelGC", "-Xmx6g", "-DTLA-Library=" + libs] + list(java_opts) + \
+    cmd = ["java", "-XX:+UseParallelGC", "-Xmx6g", "-DTLA-Library=" + libs,
+           "-Djava.io.tmpdir=" + meta] + list(java_opts) + \
           ["-cp", TLA_JAR + ":/opt/veriftools/tla/CommunityModules-deps.jar", "tlc2.TLC",
            "-workers", str(workers), "-metadir", meta, "-noGenerateSpecTE", "-config", cfg]
     if not deadlock:
